@@ -298,7 +298,10 @@ pub fn run(args: &Args) -> Report {
                     if refused {
                         rep.violate("ctap: rk=true was not refused by a non-discoverable-only store", String::new(), case.clone());
                     }
-                    let s = &snap[0];
+                    let Some(s) = snap.first() else {
+                        rep.violate("ctap: registered credential not in the store", String::new(), case.clone());
+                        continue;
+                    };
                     if s.user_handle.is_some() != discoverable {
                         rep.violate("ctap: user handle stored differently from discoverability under the store capability", format!("stored {}, discoverable {discoverable}", s.user_handle.is_some()), case.clone());
                     }
